@@ -27,7 +27,7 @@ BOUND = {
     "thorough": "L(5,3) x every question position x 11 types x 22 tokens; L(5,3) x ordered trigger pairs x 3 target types x calc/no-calc x 2 trigger types",
 }
 # as-built additions to the bound (kept next to BOUND so that the evidence reports them)
-BOUND = {k: v + "; plus: " + "4 function/reference-then-minus tokens; one name deviation: the question's name extends another node's name (<name>_count, <name>x)" for k, v in BOUND.items()}
+BOUND = {k: v + "; plus: " + "a namesake of the question in another group/repeat (before/after) with a default of the other kind, 6 token pairs; triggered calculations spelled yes/false/TRUE/true(); 4 function/reference-then-minus tokens; one name deviation: the question's name extends another node's name (<name>_count, <name>x)" for k, v in BOUND.items()}
 NAMES = ["a", "b", "c", "d", "e", "f"]
 TYPES = ["text", "integer", "decimal", "date", "time", "dateTime", "select_one c", "geopoint", "image", "calculate", "note"]
 # token -> classification: 's' static, 'd' dynamic, '?' ambiguous
@@ -77,6 +77,13 @@ def expand(block, tier):
                     for ty in ("text", "integer"):
                         for tok in ("now()", "${t0} + 1", "5"):
                             yield {"k": "default", "f": fj, "q": qi, "type": ty, "tok": tok, "pre": [nd["i"], sfx]}
+        # a namesake of the question in another section (legal: nothing refers to it by name), with a default of the other kind
+        for qi in qs:
+            for ty in ("text", "integer"):
+                for tok, tok2 in (("5", "now()"), ("now()", "5"), ("${t0} + 1", "abc"), ("abc", "${t0} + 1"), ("now()", "now()"), ("5", "5")):
+                    for cont in ("group", "repeat"):
+                        for pos in ("first", "last"):
+                            yield {"k": "default", "f": fj, "q": qi, "type": ty, "tok": tok, "twin": [tok2, cont, pos]}
     else:
         ttypes = ["text"] if tier == "quick" else ["text", "select_one c"]
         for ti in qs:
@@ -91,6 +98,14 @@ def expand(block, tier):
                             continue  # a calculate row without calculation is (rightly) refused
                         for tt in ttypes:
                             yield {"k": "trigger", "f": fj, "t": ti, "x": xi, "type": ty, "calc": calc, "tt": tt}
+        # calculations that are spelled like the yes/no aliases of boolean cells: still only the action, never a bind calculate
+        for ti in qs:
+            for xi in qs:
+                if ti == xi:
+                    continue
+                for ty in ("calculate", "text"):
+                    for calc in ("yes", "false", "TRUE", "true()"):
+                        yield {"k": "trigger", "f": fj, "t": ti, "x": xi, "type": ty, "calc": calc, "tt": "text"}
         # one trigger, two targets: one with a calculation, one without (either sheet order), or both with different ones
         for ti in qs:
             for xi in qs:
@@ -153,6 +168,11 @@ def build(case):
                 rows.append({"type": f"end {kind}"})
 
     rec(forest)
+    if case.get("twin"):
+        tok2, cont, pos = case["twin"]
+        tw = [{"type": f"begin {cont}", "name": "twz9", "label": "TW"}, {"type": case["type"], "name": NAMES_[case["q"]], "label": "TWIN", "default": tok2}, {"type": f"end {cont}"}]
+        rows[1:1] = tw if pos == "first" else []
+        rows.extend(tw if pos == "last" else [])
     return {"survey": rows, "choices": [dict(c) for c in CHOICES]}, nodes
 
 
@@ -240,8 +260,24 @@ def check_default(case, nodes, obs, ntr):
                 viol.append(("setvalue-not-in-innermost-repeat-body", f"{px}: parent={where} expected repeat {inner}"))
             if sorted(ev) != ["odk-instance-first-load", "odk-new-repeat"]:
                 viol.append(("setvalue-event-repeat", str(ev)))
+    twin_px = None
+    if case.get("twin"):
+        # the namesake in its own section: its default, classified by its own token, exactly once as well
+        tok2, cont, _ = case["twin"]
+        twin_px = f"/data/twz9/{nd['path'][-1]}"
+        tcopies = [obs.paths.get(twin_px)] + list(obs.template_paths.get(twin_px, []))
+        tsv = [el for el, par, tag in all_setvalues(obs) if el.get("ref") == twin_px]
+        if tcopies[0] is None:
+            viol.append(("twin-node-missing", twin_px))
+        else:
+            ttexts = [(c.text or "") for c in tcopies]
+            t_static = all(norm_ws(t) == norm_ws(tok2) for t in ttexts) and not tsv
+            t_dynamic = all(t == "" for t in ttexts) and len(tsv) == 1 and align(tok2, tsv[0].get("value") or "") is not None
+            want = TOKENS.get(tok2, "s")
+            if (want == "s" and not t_static) or (want == "d" and not t_dynamic):
+                viol.append((f"twin-default-wrong:{'static' if want == 's' else 'dynamic'}-twin-in-{cont}", f"tok2={tok2!r} texts={ttexts} setvalues={[e.get('value') for e in tsv]}"))
     # nowhere else: the literal must not leak into other nodes, no other setvalue at all
-    others = [el.get("ref") for el, par, tag in all_setvalues(obs) if el.get("ref") != px]
+    others = [el.get("ref") for el, par, tag in all_setvalues(obs) if el.get("ref") not in (px, twin_px)]
     if others:
         viol.append(("stray-setvalue", str(others)))
     return {"outcome": outcome, "nt": bool(reps) and not viol, "viol": viol, "tr": ntr}
